@@ -884,6 +884,8 @@ func (handler *Handler) QueryResponseHandler(ctx context.Context, packet *Packet
 	}
 
 	// proxy output
+	// The handler was reset when this response started. It must not be touched once the last packet is on its way:
+	// the client may already have sent its next command, for which the client-side goroutine has chosen a handler.
 	handler.logger.Debugln("Proxy output")
 	for _, dumper := range output {
 		if _, err := clientConnection.Write(dumper.Dump()); err != nil {
@@ -892,7 +894,6 @@ func (handler *Handler) QueryResponseHandler(ctx context.Context, packet *Packet
 			return err
 		}
 	}
-	handler.resetQueryHandler()
 	handler.logger.Debugln("Query handler finish")
 	return nil
 }
@@ -915,20 +916,22 @@ func (handler *Handler) PreparedStatementResponseHandler(ctx context.Context, pa
 	preparedStmt := NewPreparedStatement(response.StatementID, response.ParamsNum, queryObj.Query(), statement)
 	handler.registry.AddStatement(NewPreparedStatementItem(preparedStmt, nil))
 
-	// proxy output
-	handler.logger.Debugln("PreparedStatementResponseHandler.Proxy output")
-	if _, err := clientConnection.Write(packet.Dump()); err != nil {
-		handler.logger.WithError(err).WithField(logging.FieldKeyEventCode, logging.EventCodeErrorNetworkWrite).
-			Debugln("Can't proxy output")
-		return err
-	}
-
+	// choose the handler of the packets that follow before the response reaches the client: without parameter and
+	// column definitions this is the last packet and the client's next command may arrive at once
 	handler.resetQueryHandler()
 	// if prams_num > 0 params definition block will follow
 	// https://dev.mysql.com/doc/internals/en/com-stmt-prepare-response.html
 	if response.ParamsNum > 0 {
 		fieldTracker := NewPreparedStatementFieldTracker(handler, response.ColumnsNum)
 		handler.setQueryHandler(fieldTracker.ParamsTrackHandler)
+	}
+
+	// proxy output
+	handler.logger.Debugln("PreparedStatementResponseHandler.Proxy output")
+	if _, err := clientConnection.Write(packet.Dump()); err != nil {
+		handler.logger.WithError(err).WithField(logging.FieldKeyEventCode, logging.EventCodeErrorNetworkWrite).
+			Debugln("Can't proxy output")
+		return err
 	}
 	handler.logger.Debugln("Prepared Statement registered successfully")
 	return nil
